@@ -124,7 +124,7 @@ def run(ctx):
             items.append({"rows": ["".join(p), "", "".join(p)[::-1] + "A"], "enc": ename})
     for it in ctx.mine(items):
         ctx.run_case(case_rc, it)
-    for _ in range(ctx.share(ctx.pick(2000, 100000))):
+    for _ in range(ctx.share(ctx.pick(2000, 400000))):
         ename = rng.choice(list(ENC))
         alpha = rng.choice(["ACGT", "ACGTN", "ACGTNacgtn", "acgt"])
         rows = ["".join(rng.choice(alpha) for _ in range(rng.choice([0, 1, 2, 5, 17]))) for _ in range(rng.randint(1, 5))]
@@ -185,7 +185,7 @@ def run(ctx):
             ctx.check("strand_specific", [t.upper() for t in text_rows(res)] == exp, "get_strand_specific_sequences/held-result-changed-by-an-edit-of-the-reference", "the first extraction now reads %r" % ([t.upper() for t in text_rows(res)][:3],), dict(c), None)
             ctx.count("extractions_after_an_edit")
 
-    for _ in range(ctx.share(ctx.pick(1500, 60000))):
+    for _ in range(ctx.share(ctx.pick(1500, 240000))):
         ename = rng.choice(["ascii", "ACGTn", "ACGT"])
         alpha = "ACGT" if ename == "ACGT" else rng.choice(["ACGT", "ACGTN"])
         L = rng.randint(1, 30)
@@ -240,7 +240,7 @@ def run(ctx):
             if os.path.exists(p):
                 os.remove(p)
 
-    for _ in range(ctx.share(ctx.pick(480, 9000))):
+    for _ in range(ctx.share(ctx.pick(480, 36000))):
         chroms = [("chr%d" % (i + 1), "".join(rng.choice("ACGTN" if rng.random() < 0.3 else "ACGT") for _ in range(rng.randint(1, 40)))) for i in range(rng.randint(1, 3))]
         if rng.random() < 0.4:
             # soft-masked stretches: lower-case letters in the reference (the extraction is compared letter for letter, case apart)
@@ -308,7 +308,7 @@ def run(ctx):
                   (ref, tuple(lines)) if multi_minus else None)
         ctx.count("transcript_cases")
 
-    for _ in range(ctx.share(ctx.pick(320, 6000))):
+    for _ in range(ctx.share(ctx.pick(320, 24000))):
         ctx.run_case(case_transcripts, {"seed": rng.randrange(2 ** 40)})
     ctx.floor("transcript_cases", ctx.pick(5, 100))
 
@@ -362,7 +362,7 @@ def run(ctx):
             titems.append({"rows": [cod.lower(), "", cod + cod[::-1]], "enc": ename})
     for it in ctx.mine(titems):
         ctx.run_case(case_translate, it)
-    for _ in range(ctx.share(ctx.pick(1500, 60000))):
+    for _ in range(ctx.share(ctx.pick(1500, 240000))):
         rows = ["".join(rng.choice(codons) for _ in range(rng.choice([0, 1, 2, 5, 20]))) for _ in range(rng.randint(1, 4))]
         if rng.random() < 0.3:
             rows = [r.lower() if rng.random() < 0.5 else r for r in rows]
